@@ -893,6 +893,19 @@ func (x *g) fieldOptions(c *desc.Case, cfg *desc.Config) {
 			cfg.RequiredFields = append(cfg.RequiredFields, key(o))
 		}
 	}
+	// directed: BOTH key forms for one nested field, with different lists (the full path is the more specific entry and is
+	// looked up first for validators / plan modifiers)
+	{
+		n := 0
+		for _, o := range occ {
+			if n >= 2 || o.path == o.typeName || excl[o.typeName] || isCustomOcc(o) || !x.r.P(25) {
+				continue
+			}
+			cfg.Validators = append([]desc.KVs{{K: o.path, V: []string{validatorPool[1]}}, {K: o.typeName, V: []string{validatorPool[0]}}}, cfg.Validators...)
+			cfg.PlanModifiers = append([]desc.KVs{{K: o.typeName, V: []string{planModPool[1]}}, {K: o.path, V: []string{planModPool[0], planModPool[1]}}}, cfg.PlanModifiers...)
+			n++
+		}
+	}
 	cfg.ComputedFields = dedupStr(cfg.ComputedFields)
 	cfg.SensitiveFields = dedupStr(cfg.SensitiveFields)
 	cfg.RequiredFields = dedupStr(cfg.RequiredFields)
